@@ -595,10 +595,32 @@ class BuiltinMixin:
         items = self.iter_items(args[0], st, cx)
         if items is not None:
             return [(st, VIter(list(reversed(items))))]
+        v = args[0]
+        if isinstance(v, VList):
+            # reversed(xs) over a symbolic list: a fresh list r with len r == len xs and r[i] == xs[len-1-i]
+            ls = v.sort
+            r = fresh(ls, "rev")
+            n = ls.len(v.t)
+            i = z3.FreshConst(z3.IntSort(), "ri")
+            st = st.copy()
+            st.pc.append(ls.len(r.t) == n)
+            st.pc.append(z3.ForAll([i], z3.Implies(z3.And(i >= 0, i < n), z3.Select(ls.arr(r.t), i) == z3.Select(ls.arr(v.t), n - 1 - i))))
+            st.pc.append(canonical_list(r.t, ls))
+            return [(st, r)]
         raise Unsupported("reversed over symbolic sequence")
 
     def bi_next(self, args, kw, st, cx, node):
         items = self.iter_items(args[0], st, cx)
+        if items is None and isinstance(args[0], VList) and len(args) > 1:
+            # next(iter_over_symbolic_list, default): the first element, or the default when the list is empty
+            xs = args[0]
+            outs = []
+            t, f = self.fork(st, xs.sort.len(xs.t) > 0)
+            if t is not None:
+                outs.append((t, list_get(xs, z3.IntVal(0))))
+            if f is not None:
+                outs.append((f, args[1]))
+            return outs
         if items is None:
             raise Unsupported("next over symbolic iterator")
         if items:
